@@ -105,6 +105,13 @@ def rand_tracks(rng, skip_checks, allow_huge=True):
         if skip_checks and rng.random() < 0.3 and msgs:
             msgs.insert(rng.randrange(len(msgs)),
                         Message('note_on', note=300, velocity=-1, skip_checks=True, time=rng.choice((0, 2))))
+        if rng.random() < 0.25:
+            # a track recorded straight from a port holds whatever came in: clock ticks, start/stop, active sensing, a reset -
+            # messages like any other to a merge (what a file can store is save()'s business)
+            for _ in range(rng.randrange(1, 6)):
+                rt = Message(rng.choice(('clock', 'start', 'continue', 'stop', 'active_sensing', 'reset', 'tune_request')),
+                             time=rng.choice((0, 0, 1, 24)) if not floats else rng.choice((0, 0.5)))
+                msgs.insert(rng.randrange(len(msgs) + 1), rt)
         if msgs and rng.random() < 0.15:
             # the same message object at several positions (a repeated bar, track * 2)
             msgs = msgs + [msgs[rng.randrange(len(msgs))] for _ in range(rng.randrange(1, 4))]
